@@ -25,6 +25,15 @@ the cache, then (if undefined) detection and ONE store of the detected value - n
 is ever stored (listing regenerated from c/blake3_dispatch.c on every run) -/
 theorem c_detection_follows_protocol : Gen.Listings.cDetectAccesses = ["load", "store features"] := rfl
 
+/-- `get_cpu_features()` is the ONLY code of the C library that touches the cache: outside it the identifier occurs in its
+declaration and in the test program `c/main.c` (built with BLAKE3_TESTING, not part of the library). A second writer - a "warm-up"
+bit, a downgrade after a fault - would make the kernels chosen for one hasher depend on what other hashers did -/
+theorem c_detection_cache_single_writer :
+    Gen.Listings.cDetectCacheMentionsOutside =
+      ["blake3_dispatch.c: ATOMIC_INT g_cpu_features = UNDEFINED;",
+       "main.c: extern enum cpu_feature g_cpu_features;",
+       "main.c: g_cpu_features = feature;"] := rfl
+
 /-- non-vacuity: two threads, both load before either stores -/
 example : ([0, 1, 0, 1].foldl (stepTh 7) { cell := none, threads := List.replicate 2 .start }).threads = [.done 7, .done 7] := by
   decide
